@@ -263,12 +263,81 @@ theorem ofErr_short (k : Nat) :
   · have : 0 < k := by omega
     simp [this, hk, Res.ofErr]
 
+theorem readN_ok_len (n : Nat) (r : Reader) (p : Bytes) (r' : Reader) (h : readN n r = .ok p r') :
+    p.length = n := by
+  obtain ⟨d, caps, e⟩ := r
+  by_cases hn : n ≤ d.length
+  · obtain ⟨caps', h'⟩ := readN_enough n d caps e hn
+    rw [h'] at h
+    injection h with h1 _
+    rw [← h1, List.length_take]; omega
+  · obtain ⟨caps', h'⟩ := readN_short n d caps e (by omega)
+    rw [h'] at h
+    cases e <;> simp [short] at h
+
+/-! ### the 32-bit prefix arithmetic -/
+
+theorem or_shiftLeft_eq (a b i : Nat) (hb : b < 2 ^ i) : b ||| (a <<< i) = a * 2 ^ i + b := by
+  rw [Nat.or_comm, ← Nat.shiftLeft_add_eq_or_of_lt hb, Nat.shiftLeft_eq]
+
+/-- `binary.BigEndian.Uint32` in `uint32` arithmetic is the positional value of the four bytes -/
+theorem beU32_toNat (b0 b1 b2 b3 : UInt8) :
+    (beU32 b0 b1 b2 b3).toNat = be32 [b0, b1, b2, b3] := by
+  have h0 := b0.toNat_lt
+  have h1 := b1.toNat_lt
+  have h2 := b2.toNat_lt
+  have h3 := b3.toNat_lt
+  simp only [beU32, UInt32.toNat_or, UInt32.toNat_shiftLeft, UInt8.toNat_toUInt32, be32,
+    List.foldl_cons, List.foldl_nil]
+  have e8 : (UInt32.toNat 8) % 32 = 8 := by decide
+  have e16 : (UInt32.toNat 16) % 32 = 16 := by decide
+  have e24 : (UInt32.toNat 24) % 32 = 24 := by decide
+  rw [e8, e16, e24]
+  have m2 : (b2.toNat <<< 8) % 2 ^ 32 = b2.toNat <<< 8 := by
+    apply Nat.mod_eq_of_lt; rw [Nat.shiftLeft_eq]; omega
+  have m1 : (b1.toNat <<< 16) % 2 ^ 32 = b1.toNat <<< 16 := by
+    apply Nat.mod_eq_of_lt; rw [Nat.shiftLeft_eq]; omega
+  have m0 : (b0.toNat <<< 24) % 2 ^ 32 = b0.toNat <<< 24 := by
+    apply Nat.mod_eq_of_lt; rw [Nat.shiftLeft_eq]; omega
+  rw [m2, m1, m0]
+  rw [or_shiftLeft_eq b2.toNat b3.toNat 8 (by omega)]
+  rw [or_shiftLeft_eq b1.toNat _ 16 (by omega)]
+  rw [or_shiftLeft_eq b0.toNat _ 24 (by omega)]
+  omega
+
+/-- the `int` the reader computes from a 4-byte prefix is the (non-negative) big-endian value -/
+theorem msgSize_eq_be32 (p : Bytes) (h : p.length = 4) : msgSize p = Int.ofNat (be32 p) := by
+  match p, h with
+  | [a, b, c, d], _ => simp only [msgSize, intOfU32, beU32_toNat]
+
+/-- `readMessage` in terms of natural numbers: the `int` arithmetic never leaves 0 … 2^32-1 -/
+theorem readMessage_def (max : Nat) (r : Reader) : readMessage max r =
+    match readN 4 r with
+    | .err e _ r' => ⟨Res.ofErr e, r', [4]⟩
+    | .stall offs r' => ⟨.timeout false offs 4, r', [4]⟩
+    | .ok p r' =>
+      if be32 p > max then ⟨.tooLarge (be32 p), r', [4]⟩ else
+      match readN (be32 p) r' with
+      | .ok b r'' => ⟨.msg b, r'', [4, be32 p]⟩
+      | .err e _ r'' => ⟨(match e with | .eof => .unexpectedEOF | e => Res.ofErr e), r'', [4, be32 p]⟩
+      | .stall offs r'' => ⟨.timeout true offs (be32 p), r'', [4, be32 p]⟩ := by
+  unfold readMessage
+  cases h : readN 4 r with
+  | err e o r' => rfl
+  | stall o r' => rfl
+  | ok p r' =>
+    have hl := readN_ok_len 4 r p r' h
+    simp only [msgSize_eq_be32 p hl, Int.ofNat_eq_natCast, Int.toNat_natCast, gt_iff_lt, Int.ofNat_lt]
+    split
+    · rfl
+    · cases readN (be32 p) r' <;> rfl
+
 theorem readMessage_prefix_short (max : Nat) (d : Bytes) (caps : List Nat) (e : Ending)
     (h : d.length < 4) :
     ∃ caps', readMessage max ⟨d, caps, e⟩ = ⟨endRes e false d.length 4, ⟨[], caps', e⟩, [4]⟩ := by
   obtain ⟨caps', h'⟩ := readN_short 4 d caps e h
   refine ⟨caps', ?_⟩
-  unfold readMessage
+  rw [readMessage_def]
   rw [h']
   cases e
   · simp only [short, endRes, gt_iff_lt]; rw [ofErr_short]
@@ -282,7 +351,7 @@ theorem readMessage_tooLarge (max : Nat) (d : Bytes) (caps : List Nat) (e : Endi
       ⟨.tooLarge (be32 (d.take 4)), ⟨d.drop 4, caps', e⟩, [4]⟩ := by
   obtain ⟨caps', h'⟩ := readN_enough 4 d caps e h
   refine ⟨caps', ?_⟩
-  unfold readMessage
+  rw [readMessage_def]
   rw [h']
   simp only [if_pos hb]
 
@@ -293,7 +362,7 @@ theorem readMessage_body_short (max : Nat) (d : Bytes) (caps : List Nat) (e : En
   obtain ⟨caps1, h1⟩ := readN_enough 4 d caps e h
   obtain ⟨caps2, h2⟩ := readN_short (be32 (d.take 4)) (d.drop 4) caps1 e (by simpa using hs)
   refine ⟨caps2, ?_⟩
-  unfold readMessage
+  rw [readMessage_def]
   rw [h1]
   simp only [if_neg (Nat.not_lt.mpr hb)]
   rw [h2]
@@ -313,7 +382,7 @@ theorem readMessage_msg (max : Nat) (d : Bytes) (caps : List Nat) (e : Ending)
   obtain ⟨caps1, h1⟩ := readN_enough 4 d caps e h
   obtain ⟨caps2, h2⟩ := readN_enough (be32 (d.take 4)) (d.drop 4) caps1 e (by simpa using hs)
   refine ⟨caps2, ?_⟩
-  unfold readMessage
+  rw [readMessage_def]
   rw [h1]
   simp only [if_neg (Nat.not_lt.mpr hb)]
   rw [h2, List.drop_drop]
@@ -378,21 +447,10 @@ theorem readAll_spec (max : Nat) (e : Ending) : ∀ (count : Nat) (d : Bytes) (c
           rw [ih1, ih2]
           simp [expected, frames, consumed, h0, h4, hb, hs, List.drop_drop]
 
-theorem readN_ok_len (n : Nat) (r : Reader) (p : Bytes) (r' : Reader) (h : readN n r = .ok p r') :
-    p.length = n := by
-  obtain ⟨d, caps, e⟩ := r
-  by_cases hn : n ≤ d.length
-  · obtain ⟨caps', h'⟩ := readN_enough n d caps e hn
-    rw [h'] at h
-    injection h with h1 _
-    rw [← h1, List.length_take]; omega
-  · obtain ⟨caps', h'⟩ := readN_short n d caps e (by omega)
-    rw [h'] at h
-    cases e <;> simp [short] at h
-
 /-- `DecodeNext` is `readDelimitedMessageRaw` with a limit no 32-bit prefix can exceed. -/
 theorem decodeNext_eq (r : Reader) : decodeNext r = readMessage 4294967295 r := by
-  unfold decodeNext readMessage
+  unfold decodeNext
+  rw [readMessage_def]
   rw [readFull_eq]
   cases h : readN 4 r with
   | err e o r' => rfl
@@ -402,6 +460,7 @@ theorem decodeNext_eq (r : Reader) : decodeNext r = readMessage 4294967295 r := 
     have := be32_lt p hl
     simp only [readFull_eq]
     rw [if_neg (by omega)]
+    cases readN (be32 p) r' <;> rfl
 
 theorem decodeAll_eq (k : Nat) (r : Reader) : decodeAll k r = readAll 4294967295 k r := by
   unfold decodeAll readAll
@@ -528,7 +587,7 @@ theorem expected_msgs (max : Nat) (msgs : List Bytes) (tail : Bytes) (e : Ending
 
 theorem readMessage_allocs (max : Nat) (r : Reader) :
     ∀ a ∈ (readMessage max r).allocs, a = 4 ∨ a ≤ max := by
-  unfold readMessage
+  rw [readMessage_def]
   cases readN 4 r with
   | err e o r' => simp
   | stall o r' => simp
